@@ -1269,8 +1269,8 @@ typename SPxSolverBase<R>::Status SPxSolverBase<R>::solve(volatile bool* interru
 template <class R>
 bool SPxSolverBase<R>::performSolutionPolishing()
 {
-   // catch rare case that the iteration limit is exactly reached at optimality
-   bool stop = (maxIters >= 0 && iterations() >= maxIters && !isTimeLimitReached());
+   // catch rare case that the iteration or time limit is exactly reached at optimality
+   bool stop = (maxIters >= 0 && iterations() >= maxIters) || isTimeLimitReached();
 
    // only polish an already optimal basis
    if(stop || polishObj == POLISH_OFF || status() != OPTIMAL)
